@@ -1,4 +1,4 @@
-(* GENERATED on every run by harness/props/c11.py from /tmp/seed_C11_3 - do not edit *)
+(* GENERATED on every run by harness/props/c11.py from /repo - do not edit *)
 From Coq Require Import List String Bool ZArith.
 Import ListNotations.
 Open Scope string_scope.
